@@ -150,6 +150,7 @@ type run struct {
 	hung      bool
 	cancelled bool
 	pblocked  bool
+	npanics   int
 	prevLive  bool
 	ptrAtLive int
 }
@@ -182,9 +183,20 @@ func (r *run) refresh() {
 	}
 }
 
+// safePeek: the state peek is the PLAYER reading the ring's counters; if that itself panics (unaligned 64-bit fields on a
+// 32-bit build) the recording simply carries no ring projection - the code under test will meet the same problem by itself
+func safePeek(w diode.Writer) (widx, ridx uint64, seqs []int64, ok bool) {
+	defer func() {
+		if recover() != nil {
+			ok = false
+		}
+	}()
+	return diode.VerifPeek(w)
+}
+
 func (r *run) state() ev {
 	st := ev{}
-	widx, ridx, seqs, ok := diode.VerifPeek(r.w)
+	widx, ridx, seqs, ok := safePeek(r.w)
 	if ok {
 		st["widx"] = int64(widx)
 		st["ridx"] = int64(ridx)
@@ -235,6 +247,11 @@ func (r *run) step(name string, scripted bool) bool {
 		if live {
 			r.ptrAtLive = vatomic.PtrOpsOf("diode.NewWriter")
 		}
+	}
+	// a goroutine of the code under test that panicked (reported once each)
+	for r.npanics < len(vsched.Panics) {
+		obs(ev{"a": "GPanic", "msg": vsched.Panics[r.npanics]})
+		r.npanics++
 	}
 	// producers never wait for anybody: a producer that is inside Write must be able to take its next step whatever the
 	// other goroutines are doing (no lock, no condition). Reported once per run.
@@ -308,6 +325,7 @@ func (r *run) maybeQuiesce() {
 
 func play(sc Script) (hung bool) {
 	vsched.Reset()
+	vsched.KeepPanics = true
 	vatomic.ResetPtrOps()
 	for k := range vsync.LastBroadcastWoke {
 		delete(vsync.LastBroadcastWoke, k)
